@@ -269,7 +269,7 @@ def load_known():
             line = line.strip()
             if line.startswith('known:'):
                 kv = dict(re.findall(r'(\w+)=(\S+)', line))
-                kv['text'] = line[len('known:'):].strip()
+                kv['text'] = re.sub(r'^(?:(?:property|row|site)=\S+\s+)+', '', line[len('known:'):].strip())
                 known.append(kv)
     return known
 
